@@ -162,7 +162,7 @@ def vmember(o, v: Value) -> bool:
                     return False
         return True
     if isinstance(v, KnownValue):
-        if v.val is None or isinstance(v.val, (M.Color, type)) or v.val is True or v.val is False:
+        if v.val is None or isinstance(v.val, (M.Color, M.Perm, type)) or v.val is True or v.val is False:
             return o is v.val
         return type(o) is type(v.val) and o == v.val
     if isinstance(v, SequenceValue):
@@ -219,7 +219,7 @@ ISINSTANCE_SETS = {
     "int": int, "bool": bool, "float": float, "str": str, "none": type(None), "tuple": tuple, "A": M.A, "B": M.B,
     "int_str": (int, str),
 }
-SINGLETONS = {"None": None, "True": True, "RED": M.Color.RED}
+SINGLETONS = {"None": None, "True": True, "RED": M.Color.RED, "PR": M.Perm.R}
 
 
 def _py_cmp(op: str, o, k):
@@ -259,6 +259,12 @@ def build(cond, k1, k2, s1, stub):
         c = NameCheckVisitor._constraint_from_compare_op(stub, NODE, tup, CMP[op](), is_right=True)
         f = (lambda o: o in tup) if op == "in" else (lambda o: o not in tup)
         return c, f, (lambda o: type(o) is int and (o == k1 or o == k2)), (lambda o: type(o) is int)
+    if kind == "instr":
+        # `x in "ab"`: substring containment, not membership among the characters
+        op = cond[1]
+        c = NameCheckVisitor._constraint_from_compare_op(stub, NODE, "ab", CMP[op](), is_right=True)
+        f = (lambda o: o in "ab") if op == "in" else (lambda o: o not in "ab")
+        return c, f, (lambda o: type(o) is str and o in "ab"), (lambda o: type(o) is str)
     if kind == "is":
         op, name = cond[1], cond[2]
         k = SINGLETONS[name]
@@ -424,13 +430,15 @@ VALUES = [
     ("lit", True), ("union", ("lit", "a"), ("int",)), ("type", "B"), ("union", ("type", "A"), ("none",)),
     ("list", ("int",)), ("union", ("list", ("int",)), ("none",)), ("union", ("str",), ("vtuple", ("int",))),
     ("dict", ("str",), ("int",)), ("union", ("lit", P0), ("lit", "a"), ("none",)), ("union", ("cls", "A"), ("cls", "B"), ("none",)),
+    ("flag",), ("union", ("flag",), ("none",)), ("typeobj",),
 ]
 
 CONDS = (
     [["cmp", op, "int"] for op in ("==", "!=", "<", "<=", ">", ">=")]
     + [["cmp", op, "str"] for op in ("==", "!=")]
     + [["in", "in"], ["in", "notin"]]
-    + [["is", op, nm] for op in ("is", "isnot") for nm in ("None", "True", "RED")]
+    + [["is", op, nm] for op in ("is", "isnot") for nm in ("None", "True", "RED", "PR")]
+    + [["instr", "in"], ["instr", "notin"]]
     + [["truthy"]]
     + [["isinstance", nm] for nm in ISINSTANCE_SETS]
     + [["len", op] for op in ("==", "<", ">=", "!=", "<=", ">")]
@@ -461,7 +469,9 @@ def _second_kinds(cond) -> List[str]:
     if cond[0] == "isinstance" and cond[1] in ("str",):
         return ["str"]
     if cond[0] == "is":
-        return ["none", "bool"] if cond[2] != "RED" else ["enum"]
+        return {"RED": ["enum"], "PR": ["flagRW"]}.get(cond[2], ["none", "bool"])
+    if cond[0] == "instr":
+        return ["str"]
     if cond[0] == "issubclass":
         return ["clsB"]
     return ["int"]
